@@ -76,3 +76,13 @@ func Draw(tp *simcore.Tape, engines ...string) (desc string, restore func()) {
 		}
 	}
 }
+
+// Record puts the run's knob setting into the event log and counts runs with shrunk thresholds.
+func Record(e *simcore.Env, desc string) {
+	e.Event("%s", desc)
+	if desc != "knobs: shipped" {
+		e.Probe("knob.size_thresholds_shrunk")
+	} else {
+		e.Probe("knob.size_thresholds_shipped")
+	}
+}
